@@ -305,9 +305,9 @@ def rand_cfg(ctx, pts):
     if s in ('rdp', 'grdp', 'mp_grdp'):
         scfg['t'] = rng.choice([0.001, 0.01, 0.05]) if scfg['cost'] != 'r2' else rng.choice([0.9, 0.99, 0.999])
     if s == 'rdp_fixed':
-        scfg['k'] = rng.randrange(max(4, n // 4), n + 1)
+        scfg['k'] = rng.randrange(min(max(4, n // 4), n), n + 1) if rng.random() < 0.9 else rng.randrange(0, n + 3)
     if s in ('mp_grdp', 'min_point_rdp'):
-        scfg['m'] = rng.randrange(max(4, n // 4), n + 1)
+        scfg['m'] = rng.randrange(min(max(4, n // 4), n), n + 1) if rng.random() < 0.9 else rng.randrange(0, n + 3)
     if s == 'min_point_rdp':
         scfg = dict(m=scfg['m'], ts=[0.01, 0.001, 0.0001])
     return dict(simplifier=s, scfg=scfg, detector=rng.choice(detfam.DETS), t1=rng.choice([0.0, 0.001, 0.01]), t2x=rng.choice([0, 0, 1]),
@@ -328,7 +328,7 @@ def run(ctx):
                              linkage='average', tl=0.05, mode='hull'), 'corpus-collinear-zero-tail')
     for _ in range(350 if quick else 6000):
         u = rng.random()
-        n = rng.randrange(8, 70)
+        n = rng.randrange(8, 70) if rng.random() < 0.93 else rng.randrange(2, 8)       # also the smallest curves (no knee at all is a valid outcome)
         if u < 0.6:
             pts, fam = gen.dyadic_curve(rng, n, rng.choice(['missratio', 'steps', 'convex', 'concave', 'elbows', 'walk', 'plateau', 'zeros', 'noisyline']), scale_exp=0)
             pts, vt = gen.near_ties(rng, pts, 0.25 if fam in ('steps', 'plateau', 'missratio') else 0.05)
